@@ -73,7 +73,7 @@ def import_(pid, needs, rnd=1):
     """Confirm /tmp/seed[2]-<pid>/out/{A,B} and keep the confirmed ones as seeded/<pid>-<X>/ (round 2: C, D)."""
     for x0 in ("A", "B"):
         src = f"/tmp/seed{'' if rnd == 1 else rnd}-{pid}/out/{x0}"
-        x = x0 if rnd == 1 else {"A": "C", "B": "D"}[x0] if rnd == 2 else {"A": "E", "B": "F"}[x0] if rnd == 3 else {"A": "G", "B": "H"}[x0] if rnd == 4 else {"A": "I", "B": "J"}[x0] if rnd == 5 else {"A": "K", "B": "L"}[x0] if rnd == 6 else {"A": "M", "B": "N"}[x0] if rnd == 7 else {"A": "O", "B": "P"}[x0] if rnd == 8 else {"A": "Q", "B": "R"}[x0] if rnd == 9 else x0 + str(rnd)
+        x = x0 if rnd == 1 else {"A": "C", "B": "D"}[x0] if rnd == 2 else {"A": "E", "B": "F"}[x0] if rnd == 3 else {"A": "G", "B": "H"}[x0] if rnd == 4 else {"A": "I", "B": "J"}[x0] if rnd == 5 else {"A": "K", "B": "L"}[x0] if rnd == 6 else {"A": "M", "B": "N"}[x0] if rnd == 7 else {"A": "O", "B": "P"}[x0] if rnd == 8 else {"A": "Q", "B": "R"}[x0] if rnd == 9 else {"A": "S", "B": "T"}[x0] if rnd == 10 else x0 + str(rnd)
         if not os.path.exists(os.path.join(src, "patch.diff")):
             print(pid, x, "no patch"); continue
         res = confirm(src)
